@@ -20,11 +20,11 @@ ORACLE_OWNER = {
 }
 
 
-def run_harness(ctx, prop, nrand, repeat, timeout_ms=4000):
+def run_harness(ctx, prop, nrand, repeat, stress, timeout_ms=4000):
     """Run the Go harness against /repo's working tree. Returns (ok, runs, oracles, aborted, output)."""
     out = os.path.join(ctx.tmp, "%s_runner.jsonl" % prop.lower())
     seed = ctx.seed * 100 + int(prop[1:])
-    env = {"VERIF_OUT": out, "VERIF_SEED": str(seed), "VERIF_RUNS": str(nrand), "VERIF_REPEAT": str(repeat),
+    env = {"VERIF_OUT": out, "VERIF_SEED": str(seed), "VERIF_RUNS": str(nrand), "VERIF_REPEAT": str(repeat), "VERIF_STRESS": str(stress),
            "VERIF_TIMEOUT_MS": str(timeout_ms)}
     rc, o = ctx.go_overlay_test("runner", {"zz_verif_c04c05c09_test.go": HARNESS_FILE}, "^TestVerifRunner$", env,
                                 timeout=1500)
@@ -189,8 +189,8 @@ def run_check(ctx, prop, props_file, sizes, rule_extra):
     ok, rep = ctx.coq_props(props_file, timeout=1500)
     proof_broken = not ok
 
-    nrand, repeat = sizes["quick"] if ctx.quick() else sizes["thorough"]
-    okh, runs, oracles, aborted, o = run_harness(ctx, prop, nrand, repeat)
+    nrand, repeat, stress = sizes["quick"] if ctx.quick() else sizes["thorough"]
+    okh, runs, oracles, aborted, o = run_harness(ctx, prop, nrand, repeat, stress)
     if not okh:
         ctx.log(o[-3000:])
         ctx.violation("runner harness failed to build or run against /repo",
@@ -229,12 +229,13 @@ def run_check(ctx, prop, props_file, sizes, rule_extra):
     ctx.coverage["evaluations"] = len(runs)
     ctx.coverage["distinct_nontrivial"] = len(sigs)
     ctx.coverage["rule"] = (
-        "runs of the real runner over a fake Targets/Target (24 fixed graphs: chains, diamonds, shared subgraphs, duplicate "
+        "runs of the real runner over a fake Targets/Target (25 fixed graphs: chains, diamonds, shared subgraphs, fan-in, duplicate "
         "deps, failing/unknown targets, self-loops, 2-/3-cycles, inner and overlapping cycles, the F11 shape, a layered DAG) "
-        "x limits {1,2,3,4,16} + exported Run at NumCPU, x %d repetitions, plus %d random graphs of 2..8 labels, each under "
+        "x limits {1,2,3,4,16} + exported Run at NumCPU, x %d repetitions, plus %d contention-stress runs (fan-in, layered, "
+        "shared, fan-out on all CPUs), plus %d random graphs of 2..8 labels, each under "
         "one of 9 seeded jitter profiles and GOMAXPROCS in {1,2,4,16}; every run's hook log (%d events in total) is replayed "
         "by the Coq model; distinct = distinct (graph, limit, event sequence) triples, i.e. distinct observed schedules. %s"
-        % (repeat, nrand, nev, rule_extra))
+        % (repeat, stress, nrand, nev, rule_extra))
     ctx.coverage["exhaustive"] = False
     ctx.coverage["correspondence"] = {"cases": len(done_runs), "events": nev, "mismatches": len(rejected),
                                       "distribution": dist, "jitter_profiles": profs,
